@@ -32,6 +32,10 @@ func panicInCodeUnderTest(stack string) string {
 		if !seenPanic || strings.HasPrefix(l, "\t") || strings.HasPrefix(l, "runtime.") || strings.HasPrefix(l, "runtime/") {
 			continue
 		}
+		// the lock shims raise the deadlock panic on behalf of the code that called them
+		if strings.Contains(l, "/verifx/vsync.") || strings.Contains(l, "/verifx/vsched.") {
+			continue
+		}
 		if strings.HasPrefix(l, "github.com/juev/hledger-lsp/") && !strings.Contains(l, "/verifx/") && !strings.HasPrefix(l, "github.com/juev/hledger-lsp/cmd/verifworker") {
 			if i := strings.LastIndex(l, "("); i > 0 {
 				l = l[:i]
